@@ -232,7 +232,7 @@ def render_string(s, mode):
 class Concretiser:
     """Chooses concrete texts for the tokens / free keys of an abstract tree. One instance per case."""
 
-    def __init__(self, rnd, free_keys=(), adversarial=True, permute=False, string_mode=None):
+    def __init__(self, rnd, free_keys=(), adversarial=True, permute=False, string_mode=None, requested=()):
         self.rnd = rnd
         self.free_keys = set(free_keys)
         self.adversarial = adversarial
@@ -250,7 +250,9 @@ class Concretiser:
         rnd.shuffle(self.kpool)
         self.bracket_values = set()  # python values / keys whose RAW text contains ']'
         # the free keys "a" / "b" are the member names of flat objects in the generated cases: dotted names for some cases
-        self.dotted = rnd.choice(DOTTED_KEY_PAIRS) if adversarial and rnd.random() < 0.4 else None
+        # (never a name that occurs as a dotted sub-path of a requested path: ijson's prefix would make it that path)
+        pairs = [p for p in DOTTED_KEY_PAIRS if not any("." in d and ("." + d + ".") in ("." + r + ".") for d in p for r in requested)]
+        self.dotted = rnd.choice(pairs) if adversarial and pairs and rnd.random() < 0.4 else None
 
     def _mode(self):
         return self.string_mode if self.string_mode is not None else self.rnd.choice([0, 0, 1, 2, 3])
